@@ -43,7 +43,7 @@ TRUSTED = [
     "reference-index keys are not modelled: they only count towards the flush threshold (2 keys per target); relationship queries are "
     "compared before/after on the implementation, as are unscoped merged multi-dataset lookups; the model predicts 'unchanged' unless a "
     "writer raced, a committed flush (now or earlier in the run) deleted reference keys shared with a kept version of the same recorded "
-    "time (F12c), or the stale comparison base (F12a) makes a difference for some entity of the dataset (both passes are run in lockstep)",
+    "time, or scheduled reference keys of a version that shares its recorded time with another version of the entity (F12c), or the stale comparison base (F12a) makes a difference for some entity of the dataset (both passes are run in lockstep)",
 ]
 ASSUMPTIONS = ["one compaction at a time on a dataset (CompactAsync refuses a second one); the racing writer commits whole batches "
                "between two flushes; no dataset deletion during compaction"]
@@ -135,6 +135,11 @@ def witness_cases():
     old, new = sc.ENGINEERED[0]
     cs.append(compact_case(["a"], ["e1"], [B("a", sc.with_id("e1", old)), B("a", sc.with_id("e1", new))], [{"ds": "a", "threshold": 1}]))
     cs.append(compact_case(["a"], ["e1"], [B("a", E("e1", {"p2": sc.NESTED1}))] * 3, [{"ds": "a", "threshold": 2}]))
+    # F12c, reference-only branch: a deleted version repeats its predecessor's reference; later versions of the SAME batch un-delete and
+    # then drop that reference - the scheduled keys are the last version's tombstones, the dropped relation comes back
+    cs.append(compact_case(["a"], ["e2", "e3"], [B("a", E("e2", {"p1": 1}, {"r1": "e3"}, True)),
+                                                  B("a", E("e2", {"p1": 2}, {"r1": "e3"}, True), E("e2", {"p1": 2}, {"r1": "e3"}), E("e2", {"p1": 3}, {"r1": "e4"}))],
+                           [{"ds": "a", "threshold": 0}]))
     # legacy duplicates on two entities, killed at the second flush, compacted again
     cs.append(compact_case(["a"], ["e1", "e2"], [B("a", E("e1", A, r), E("e2", Bb)), {"op": "dup", "ds": "a", "id": "http://v/e1"},
                                                   {"op": "dup", "ds": "a", "id": "http://v/e2"}, {"op": "dup", "ds": "a", "id": "http://v/e1"}],
